@@ -229,6 +229,21 @@ def replay_merge(ctx, doc, n):
         ctx.violation("multimerge/input_modified", f"{desc} modified an input table", rp)
 
 
+_STATE = {}
+
+
+def _replay_item(ctx, i, item):
+    n, oi, doc = item
+    if doc["kind"] == "pred":
+        replay_pred(ctx, doc, n)
+    elif doc["kind"] == "std":
+        interner, opts = _STATE[oi]
+        replay_std(ctx, doc, interner, opts, n)
+    else:
+        replay_merge(ctx, doc, n)
+    ctx.traces += 1
+
+
 def run(ctx):
     import logging
     logging.disable(logging.CRITICAL)          # tidytcells reports failed standardisations through logging
@@ -252,20 +267,17 @@ def run(ctx):
             # quick: all four cell classes in one-row tables for the first option set, two-row tables over two classes afterwards
             res = run_cfg(ctx, f"cleaning{oi}", cfg_text(kinds, maxlen=3 if q else 4, maxrows=(1 if oi == 0 else 2) if q else 2,
                                                           cellids=((1, 2, 3, 4) if oi == 0 else (1, 4)) if q else (1, 2, 3, 4),
-                                                          colsets="CS1" if (q or oi) else "CS2", maxtables=3, keyvals=(1, 2) if q else (1, 2, 3)), stdfile)
-            for doc in ctx.sample([d for d in res.printed if "kind" in d], 40000):
-                if "kind" not in doc:
-                    continue
+                                                          colsets="CS1" if (q or oi) else "CS2", maxtables=4, keyvals=(1, 2) if q else (1, 2, 3)), stdfile)
+            _STATE[oi] = (interner, opts)
+            items = []
+            for doc in ctx.sample([d for d in res.printed if "kind" in d], 60000):
                 n += 1
-                if doc["kind"] == "pred":
-                    replay_pred(ctx, doc, n)
-                elif doc["kind"] == "std":
-                    if n % (2 if q else 3):
-                        continue
-                    replay_std(ctx, doc, interner, opts, n)
-                else:
-                    replay_merge(ctx, doc, n)
-                ctx.traces += 1
+                if doc["kind"] == "std" and n % (2 if q else 3):
+                    continue
+                if doc["kind"] == "merge" and len(doc["tab"]) == 4 and n % (3 if q else 2):
+                    continue
+                items.append((n, oi, doc))
+            ctx.parallel(items, _replay_item)
         ctx.exhaustive = True
         # negative controls: a standardiser applied to missing cells must be rejected by TLC; comparator self-test
         run_cfg(ctx, "NEG_missing", cfg_text(["std"], maxrows=1, colsets="CS1", mutations=["missing_not_guarded"], invs=("CellLocal", "MissingStaysMissing"), emit=False),
